@@ -8,11 +8,48 @@
 From FL Require Import Engine.Model Engine.Spec Engine.E1Base Engine.E1Inv Engine.E1Thms Engine.E1V0.
 Local Open Scope nat_scope.
 
-(* a success answer to a non-preview write implies an entry ON DISK carrying the answered transaction id and the
-   request's kind, built by that request -- or, for a replayed idempotency key, stored under that key *)
-Theorem C06_ack : forall s, reachable s -> ack_persisted s.
-Proof. exact e1_ack. Qed.
-Print Assumptions C06_ack.
+(* FULL STATEMENT (Spec.ack_persisted): a success answer to a non-preview write implies an entry ON DISK carrying the
+   answered transaction id and the request's kind, built by that request -- or, for a replayed idempotency key,
+   stored under that key:
+       forall s, reachable s -> ack_persisted s.
+   It is FALSE of the model (and of the code): SaveMeta / DeleteMetadata replaying a key that was stored by another
+   kind of write never look at the stored entry and answer success although nothing was written (known finding
+   "idempotency key stored by another kind of write"). Witness: a transaction with key 5 is written and acknowledged,
+   then SaveMeta with key 5 answers [ROk None]; the only entry on disk is the transaction. *)
+Theorem C06_ack_refuted : exists s, run init sched_ik_kinds = Some s /\ ~ ack_persisted s.
+Proof.
+  eexists. split; [vm_compute; reflexivity|].
+  intros H. destruct (H 1 _ None eq_refl eq_refl eq_refl) as (e & Hin & _ & Hk & _).
+  destruct Hin as [<-|[]]. discriminate Hk.
+Qed.
+Print Assumptions C06_ack_refuted.
+
+(* [ik_kind_consistent_b s] (E1Thms.v, executable; same text in the files of the other engine properties): every
+   request carrying a key that is on disk has the kind of that entry:
+     forallb (fun p => let rq := t_req (snd p) in N.eqb (rq_ik rq) 0 ||
+        forallb (fun e => negb (N.eqb (e_ik e) (rq_ik rq)) || same_kind (e_kind e) (rq_kind rq)) (persisted s)) (threads s) *)
+(* PARTIAL: the full statement in every reachable state in which no request carries a key stored by another kind of
+   write. The hypothesis is on the state itself only (not on the run that led to it): the disk only grows. *)
+Theorem C06_ack_partial : forall s, reachable s -> ik_kind_consistent_b s = true -> ack_persisted s.
+Proof. exact e1_ack_partial. Qed.
+Print Assumptions C06_ack_partial.
+
+(* unconditionally: a success answer has its entry on disk, or it is exactly the known finding -- a metadata write,
+   answer [ROk None], nothing built, a key that is on disk under an entry of another kind *)
+Theorem C06_ack_or_mismatch : forall s, reachable s ->
+  forall t th x, get_thread (threads s) t = Some th -> t_resp th = Some (ROk x) -> rq_dry (t_req th) = false ->
+    (exists e, In e (persisted s) /\ answers t th x e) \/
+    (is_tx_kind (rq_kind (t_req th)) = false /\ x = None /\ rq_ik (t_req th) <> 0%N /\ t_entry th = None /\
+     exists e, In e (persisted s) /\ e_ik e = rq_ik (t_req th) /\ same_kind (e_kind e) (rq_kind (t_req th)) = false).
+Proof. exact e1_ack_weak. Qed.
+Print Assumptions C06_ack_or_mismatch.
+
+(* transactions (create, revert) are not concerned: acknowledged means persisted, no hypothesis *)
+Theorem C06_ack_tx : forall s, reachable s ->
+  forall t th x, get_thread (threads s) t = Some th -> t_resp th = Some (ROk x) -> rq_dry (t_req th) = false ->
+    is_tx_kind (rq_kind (t_req th)) = true -> exists e, In e (persisted s) /\ answers t th x e.
+Proof. exact e1_ack_tx. Qed.
+Print Assumptions C06_ack_tx.
 
 (* the [done] signalling: a write leaves the wait only when its own entry is on disk *)
 Theorem C06_done : forall s, reachable s -> forall t th, get_thread (threads s) t = Some th ->
